@@ -221,7 +221,7 @@ func c19(c *an.Ctx) {
 					continue // the fragment is only forwarded together with its directives
 				}
 				o.Site(e)
-				if _, ok := exempt[full]; ok {
+				if listedFunc(exempt, full) {
 					continue
 				}
 				checks := nodeChecks(fn, e)
